@@ -18,7 +18,7 @@ pub static DEF: CheckDef = CheckDef {
     rule: "grid: (rows,inner,cols) in 1..3^3 x 4 transpose combinations x 7 leading-dimension patterns (none, equal, \
            left-only, right-only, unit-left, unit-right, two equal) x leading size 2/3 x additive term (absent, \
            [cols], [rows,cols], [1,cols], [1]) - enumerated completely; rand: sizes 1..4, up to two leading dims \
-           with cross unit broadcasting and rank differences; rank1: dot, vector-matrix, vector-matrix^T, \
+           with cross unit broadcasting and rank differences; nonfinite: admissible cases whose operands contain zeros, +-inf and NaN (IEEE sum of products: 0*inf = NaN); rank1: dot, vector-matrix, vector-matrix^T, \
            vector^T-matrix, matrix-vector^T, column-vector forms with optional leading dims; mismatch: an admissible \
            case with one inner dimension perturbed (must panic). Non-trivial = product with inner > 1 or any \
            leading dimension, or a refusal; distinct = distinct (shapes, flags, term shape).",
@@ -33,7 +33,7 @@ pub static DEF: CheckDef = CheckDef {
 const GRID: u64 = 27 * 4 * 7 * 2 * 5;
 
 fn families(t: Tier) -> Vec<(&'static str, u64)> {
-    vec![("grid", GRID), ("rand", t.n(4_000, 300_000)), ("rank1", t.n(2_000, 60_000)), ("mismatch", t.n(3_000, 60_000))]
+    vec![("grid", GRID), ("rand", t.n(4_000, 300_000)), ("rank1", t.n(2_000, 60_000)), ("mismatch", t.n(3_000, 60_000)), ("nonfinite", t.n(2_000, 60_000))]
 }
 fn floors(_t: Tier) -> Vec<(&'static str, u64)> {
     vec![("evaluations", 15_000), ("admissible_checked", 10_000), ("refusals_observed", 1_500)]
@@ -154,9 +154,27 @@ fn gen_rank1(r: &mut Rng, k: u64) -> MmCase {
     MmCase { da, db, dc, ta, tb, cell: format!("rank1-{}", name) }
 }
 
+fn sprinkle(r: &mut Rng, v: &mut [f64]) {
+    // zeros next to infinities and NaNs: IEEE semantics of the sum of products (0 * inf = NaN, inf - inf = NaN)
+    for x in v.iter_mut() {
+        match r.below(10) {
+            0 | 1 => *x = 0.0,
+            2 => *x = f64::INFINITY,
+            3 => *x = f64::NEG_INFINITY,
+            4 => *x = f64::NAN,
+            _ => {}
+        }
+    }
+}
+
 fn run_mm(ctx: &mut Ctx, c: &MmCase, r: &mut Rng, expect_refusal: bool) {
-    let va = rand_ints(r, numel(&c.da), -9, 9);
-    let vb = rand_ints(r, numel(&c.db), -9, 9);
+    let mut va = rand_ints(r, numel(&c.da), -9, 9);
+    let mut vb = rand_ints(r, numel(&c.db), -9, 9);
+    if c.cell.starts_with("nonfinite") {
+        sprinkle(r, &mut va);
+        sprinkle(r, &mut vb);
+        ctx.count("nonfinite_cases", 1);
+    }
     let vc = c.dc.as_ref().map(|d| rand_ints(r, numel(d), -9, 9));
     let ta_: T<f64> = T::from_f64(&c.da, &va);
     let tb_: T<f64> = T::from_f64(&c.db, &vb);
@@ -225,6 +243,11 @@ pub fn run_case(ctx: &mut Ctx, fam: &str, k: u64, r: &mut Rng) {
         }
         "rank1" => {
             let c = gen_rank1(r, k);
+            run_mm(ctx, &c, r, false)
+        }
+        "nonfinite" => {
+            let mut c = if k % 4 == 0 { gen_rank1(r, k / 4) } else if k % 4 == 1 { gen_rand(r) } else { gen_grid(r.below(GRID as usize) as u64) };
+            c.cell = format!("nonfinite|{}", c.cell);
             run_mm(ctx, &c, r, false)
         }
         _ => {
